@@ -53,7 +53,8 @@ type attrsEngine struct {
 	status string
 	// rv: runtime verdict per field full name, for fields protodesc.NewFile rejected
 	// (the proto handed to the runtime was repaired so that the rest of the file can be compared)
-	rv map[string]string
+	rv        map[string]string
+	walkCache map[string][]string
 }
 
 func init() { Register("attrs", func() Engine { return &attrsEngine{} }) }
@@ -68,6 +69,7 @@ func (e *attrsEngine) Reset() {
 	e.rall = nil
 	e.status = ""
 	e.rv = map[string]string{}
+	e.walkCache = nil
 }
 
 // ---------------------------------------------------------------- compile
@@ -95,6 +97,8 @@ func attrsCompile(srcs map[string]string, order []string) ([]linker.File, error)
 		Resolver: protocompile.WithStandardImports(&protocompile.SourceResolver{
 			Accessor: protocompile.SourceAccessorFromMap(srcs),
 		}),
+		// source code info, so that SourceLocations() of both views can be compared
+		SourceInfoMode: protocompile.SourceInfoStandard,
 	}
 	fs, err := c.Compile(context.Background(), order...)
 	if err != nil {
@@ -593,6 +597,21 @@ func (e *attrsEngine) Exec(op string) string {
 			return "bad-op"
 		}
 		return e.compile()
+	case "view":
+		if len(w) != 3 || !strings.HasPrefix(w[2], "x=") {
+			return "bad-op"
+		}
+		return e.viewAnswer(w[1])
+	case "rawdef":
+		if len(w) != 4 || !strings.HasPrefix(w[3], "x=") {
+			return "bad-op"
+		}
+		return attrsRawDefault(w[1], w[2])
+	case "cfeat", "cdflt":
+		if len(w) < 3 {
+			return "bad-op"
+		}
+		return e.attrsCustomFeatureExec(w)
 	case "camel":
 		// runtime's JSON name for a field without json_name (validates the model's JSONCamelCase)
 		if len(w) != 2 {
@@ -1029,19 +1048,31 @@ func (ix *attrsIndex) elementOps(fdp *descriptorpb.FileDescriptorProto) []string
 // attrsCase builds one case from sources: src ops, compile, element ops.
 // If the compiler rejects the sources the case still contains `compile`
 // (the model expects "ok", so a rejection shows up as a disagreement).
+// attrsGenViews: whether attrsCase appends the view-walk ops (the generator switches it off for most of the
+// near-identical systematic editions files in the quick tier).
+var attrsGenViews = true
+
 func attrsCase(srcs map[string]string, order []string, tolerant bool) []string {
 	var c []string
 	for _, p := range order {
 		c = append(c, "src "+p+" "+attrsHexS(srcs[p]))
 	}
 	c = append(c, "compile")
-	lfs, err := attrsCompile(srcs, order)
-	if err != nil {
+	// run the case once here: facts are read off the compiled protos, the outcome of the view walk is
+	// recorded in the view ops
+	ge := &attrsEngine{}
+	ge.Reset()
+	for _, p := range order {
+		ge.Exec("src " + p + " " + attrsHexS(srcs[p]))
+	}
+	ge.Exec("compile")
+	if ge.status == "compile-error" || ge.status == "" {
 		if tolerant {
 			return nil
 		}
 		return c
 	}
+	lfs := ge.lall
 	ix := &attrsIndex{msgs: map[string]*attrsMsgInfo{}, enums: map[string]*attrsEnumInfo{}}
 	seen := map[string]bool{}
 	var addDeps func(f protoreflect.FileDescriptor)
@@ -1064,6 +1095,9 @@ func attrsCase(srcs map[string]string, order []string, tolerant bool) []string {
 	}
 	for _, f := range lfs {
 		c = append(c, ix.elementOps(attrsProto(f))...)
+	}
+	if ge.status == "ok" && attrsGenViews {
+		c = append(c, ge.attrsViewOps()...)
 	}
 	return c
 }
@@ -2265,11 +2299,21 @@ func (e *attrsEngine) Gen(r *Rand, tier string) [][]string {
 			cases = append(cases, c)
 		}
 	}
+	cases = append(cases, attrsCase(map[string]string{"w5.proto": "syntax = \"proto2\";\npackage a.b;\nmessage M { oneof o { group G = 1 { optional int32 z = 1; } int32 i = 2; } optional M m = 3 [weak = true]; }\n"},
+		[]string{"w5.proto"}, false))
+	// 0d. directed: kitchen-sink files for the view walker, custom features, raw default strings
+	cases = append(cases, attrsSinkCases()...)
+	nraw := 60
+	if thorough {
+		nraw = 3000
+	}
+	cases = append(cases, attrsRawDefaultCases(r, nraw)...)
 	// 0c. directed: where the message type of a delimited field is declared (TextName / group-likeness)
 	cases = append(cases, attrsGroupLikeCases()...)
 	// 1. systematic: every valid field shape under proto2, proto3 and editions with file-level overrides
 	cases = append(cases, g.systematicCase("proto2", attrsGNoFeat(), thorough))
 	cases = append(cases, g.systematicCase("proto3", attrsGNoFeat(), thorough))
+	nsys := 0
 	pres := []byte{'-', 'E', 'I'}
 	three := func(a, b byte) []byte { return []byte{'-', a, b} }
 	for _, p := range pres {
@@ -2287,7 +2331,10 @@ func (e *attrsEngine) Gen(r *Rand, tier string) [][]string {
 						if !thorough && n > 1 && !(p != '-' && m != '-' && n == 2) {
 							continue
 						}
+						nsys++
+						attrsGenViews = thorough || nsys%4 == 1
 						cases = append(cases, g.systematicCase("editions", ft, false))
+						attrsGenViews = true
 					}
 				}
 			}
